@@ -1064,6 +1064,95 @@ MODE_INT = {("Calibration", "pygmo_seed"), ("Calibration", "num_islands"), ("Cal
             ("Algorithm", "generations"), ("Algorithm", "population_size"), ("Algorithm", "variant"), ("Algorithm", "variant_adptv")}
 
 
+# ------------------------------------------------------------------ APD: gain / pixel reset voltage / common voltage as relations
+APD_GAINS = [None, 0.5, 1, 1.0, 2.0, 30.5, 1000, 1001, float("nan")]
+APD_PRVS = [None, 2.0, 3.0, 5.0, 12.0, 3]
+APD_BIAS = [-1.0, 0.0, 0.5, 0.999, 1.0, 1.0000000000000002, 1.5, 4.0, 9.5]
+
+
+def gen_apd_cases(rng, quick):
+    cases = []
+    for prv in (2.0, 3.0, 5.0, 12.0, 3):
+        for b in APD_BIAS:
+            cases.append({"stream": "apd", "gain": None, "prv": prv, "cv": prv - b})
+    for g in APD_GAINS[1:]:
+        cases.append({"stream": "apd", "gain": g, "prv": rng.choice([2.0, 5.0]), "cv": None})
+        cases.append({"stream": "apd", "gain": g, "prv": None, "cv": rng.choice([1.0, 2.5])})
+        cases.append({"stream": "apd", "gain": g, "prv": 5.0, "cv": 1.0})
+    cases += [{"stream": "apd", "gain": 2.0, "prv": None, "cv": None}, {"stream": "apd", "gain": None, "prv": 3.0, "cv": None},
+              {"stream": "apd", "gain": None, "prv": None, "cv": 2.0}, {"stream": "apd", "gain": None, "prv": None, "cv": None}]
+    for c in cases:
+        for k in ("gain", "prv", "cv"):
+            c[k] = None if c[k] is None else tag_num(c[k])
+    return cases
+
+
+def apd_inputs(case):
+    return {k: (None if case[k] is None else untag_num(case[k])) for k in ("gain", "prv", "cv")}
+
+
+def apd_spec(g, p, c):
+    """the documented rule (independent copy of Model/C12.lean `apdSpec`)"""
+    given = [x is not None for x in (g, p, c)]
+    if sum(given) != 2:
+        return False
+    if g is not None:
+        return (g == g) and 1 <= Fraction(g) <= 1000
+    return Fraction(p) - Fraction(c) >= 1 if isinstance(p, int) and isinstance(c, int) else (p - c) >= 1.0
+
+
+def run_apd_impl(case):
+    import yaml
+    import pyx
+    from pyxel.configuration import loads
+    from pyxel.detectors import APDCharacteristics
+    from pyxel.pipelines import DetectionPipeline, Processor
+
+    inp = apd_inputs(case)
+    kw = {{"gain": "avalanche_gain", "prv": "pixel_reset_voltage", "cv": "common_voltage"}[k]: v for k, v in inp.items() if v is not None}
+    out = {}
+    r, obj = outcome(lambda: APDCharacteristics(roic_gain=0.8, quantum_efficiency=0.9, full_well_capacity=100000, adc_bit_resolution=16,
+                                                adc_voltage_range=(0.0, 10.0), **kw))
+    out["ctor"] = r
+    if r == "ok":
+        rel = abs((obj.pixel_reset_voltage - obj.common_voltage) - obj.avalanche_bias) <= 1e-9 * max(1.0, abs(obj.avalanche_bias))
+        given_ok = all(same_number(getattr(obj, a), v) for a, v in kw.items())
+        usable, _ = outcome(lambda: obj.charge_to_volt_conversion)
+        out["ctor_consistent"] = bool(rel and given_ok and usable == "ok" and obj.avalanche_bias >= 1.0)
+    doc = section_doc("APD")
+    ch = {k: v for k, v in doc["characteristics"].items() if k not in ("avalanche_gain", "pixel_reset_voltage", "common_voltage")}
+    ch.update(kw)
+    doc["characteristics"] = ch
+    r, cfg = outcome(loads, yaml.safe_dump({"exposure": {}, "apd_detector": doc, "pipeline": {}}, sort_keys=False))
+    out["yaml"] = r
+    # attribute / sweep on a valid detector (5 V reset, 2 V common): observed, see assumptions
+    if inp["gain"] is None and inp["prv"] is not None and inp["cv"] is not None:
+        for name, attr, val, fixed in (("setter_cv", "common_voltage", inp["cv"], inp["prv"]), ("setter_prv", "pixel_reset_voltage", inp["prv"], inp["cv"])):
+            base = {"pixel_reset_voltage": fixed, "common_voltage": fixed - 3.0} if attr == "common_voltage" else \
+                   {"pixel_reset_voltage": fixed + 3.0, "common_voltage": fixed}
+            r0, o = outcome(lambda: APDCharacteristics(roic_gain=0.8, **base))
+            if r0 == "ok":
+                out[name] = outcome(setattr, o, attr, val)[0]
+    return out
+
+
+def apd_predicate(case, impl):
+    inp = apd_inputs(case)
+    ok = apd_spec(inp["gain"], inp["prv"], inp["cv"])
+    desc = ", ".join("%s=%r" % (k, v) for k, v in inp.items() if v is not None) or "no bias input"
+    for path in ("ctor", "yaml"):
+        acc = impl[path] == "ok"
+        if ok and not acc:
+            return "APDCharacteristics.bias-inputs:%s:rejects-valid" % path, "APD given by %s is legal but the %s path refused it (%s)" % (desc, path, impl[path])
+        if not ok and acc:
+            why = "avalanche bias %s V < 1 V" % (inp["prv"] - inp["cv"]) if inp["gain"] is None and None not in (inp["prv"], inp["cv"]) else "inputs"
+            return ("APDCharacteristics.bias-inputs:%s:accepts-invalid" % path,
+                    "APD given by %s (%s) is outside the documented limits but the %s path accepted it" % (desc, why, path))
+    if impl.get("ctor_consistent") is False:
+        return "APDCharacteristics.bias-inputs:ctor:inconsistent", "APD given by %s was accepted but its bias / gain / voltages do not fit together" % desc
+    return None
+
+
 # ------------------------------------------------------------------ body
 def yaml_safe(d):
     return {k: v for k, v in d.items() if k != "stream"}
@@ -1170,6 +1259,9 @@ def body(ck: common.Check):
             for v in cands:
                 mode_cases.append({"stream": "mode", "cls": prm["cls"], "field": prm["name"], "value": v, "valid": valid})
 
+        # ---- stream 8: the APD bias inputs as relations
+        apd_cases = gen_apd_cases(rng, quick)
+
         reqs = []
         for c in guard_cases:
             reqs.append({"op": "guard", "cls": c["cls"], "field": c["field"], "x": num_json(untag_num(c["x"]))})
@@ -1188,7 +1280,18 @@ def body(ck: common.Check):
         for c in ctx_cases:
             kv = [[f, num_json(v)] for f, v in ctx_section(c).items() if isinstance(v, (int, float)) and not isinstance(v, bool)]
             ctx_reqs.append({"op": "load", "cls": c["cls"], "kv": kv})
-        answers = LeanDriver("C12").batch(reqs + doc_reqs + ctx_reqs + mode_reqs)
+        def rat_or_none(t):
+            if t is None:
+                return None
+            x = untag_num(t)
+            if isinstance(x, float) and x != x:
+                return "nan"
+            q = Fraction(x)
+            return [str(q.numerator), str(q.denominator)]
+        apd_reqs = [{"op": "apd", "gain": rat_or_none(c["gain"]), "prv": rat_or_none(c["prv"]), "cv": rat_or_none(c["cv"])}
+                    for c in apd_cases if rat_or_none(c["gain"]) != "nan"]
+        answers = LeanDriver("C12").batch(reqs + doc_reqs + ctx_reqs + mode_reqs + apd_reqs)
+        a_apd = iter(answers[len(reqs) + len(doc_reqs) + len(ctx_reqs) + len(mode_reqs):])
         for a in answers:
             if "bad" in a:
                 raise common.InfraError(f"driver rejected a request: {a}")
@@ -1196,7 +1299,7 @@ def body(ck: common.Check):
         a_one = answers[len(guard_cases): len(guard_cases) + len(one_cases)]
         a_doc = answers[len(guard_cases) + len(one_cases): len(reqs) + len(doc_reqs)]
         a_ctx = answers[len(reqs) + len(doc_reqs): len(reqs) + len(doc_reqs) + len(ctx_reqs)]
-        a_mode = iter(answers[len(reqs) + len(doc_reqs) + len(ctx_reqs):])
+        a_mode = iter(answers[len(reqs) + len(doc_reqs) + len(ctx_reqs): len(reqs) + len(doc_reqs) + len(ctx_reqs) + len(mode_reqs)])
 
         for c, ans in zip(guard_cases, a_guard):
             impl = run_guard_impl(c)
@@ -1301,6 +1404,22 @@ def body(ck: common.Check):
                 if iv != mv:
                     ck.disagreement("mode", c, {"raised": iv, "outcomes": impl}, {"raised": mv})
 
+        for c in apd_cases:
+            impl = run_apd_impl(c)
+            ck.case(c, nontrivial=True, stream="apd")
+            ck.count("apd:ctor=%s" % impl["ctor"])
+            for k_ in ("setter_cv", "setter_prv"):
+                if k_ in impl:
+                    inp = apd_inputs(c)
+                    ck.count("apd:%s bias%s1V=%s" % (k_, ">=" if inp["prv"] - inp["cv"] >= 1 else "<", impl[k_]))
+            why = apd_predicate(c, impl)
+            if why is not None:
+                ck.violation("C12:" + why[0], why[1], {"case": c, "impl": impl})
+            if rat_or_none(c["gain"]) != "nan":
+                ans = next(a_apd)
+                if ans["accepted"] != (impl["ctor"] == "ok") or ans["accepted"] != (impl["yaml"] == "ok"):
+                    ck.disagreement("apd", c, impl, ans)
+
         for c in reload_cases:
             impl = run_reload_impl(c, tmp)
             ck.case({"versions": [yaml_safe(v) for v in c["versions"]]}, nontrivial=True, stream="reload")
@@ -1316,7 +1435,10 @@ def body(ck: common.Check):
 
     ck.extra["guard_table"] = [{"cls": e["cls"], "field": e["field"], "ctor": mod.cond_json(e["ctor"]), "setter": mod.cond_json(e["setter"])} for e in table]
     ck.extra["opaque_fields"] = opaque
-    ck.rule = ("mode: every constructor parameter of Calibration, Algorithm, Exposure, Observation and Readout (read off the source with "
+    ck.rule = ("apd: the three APD bias inputs as relations — every pair of (pixel reset voltage, common voltage) with a bias of -1, 0, "
+               "0.5, 0.999, 1, 1+ulp, 1.5, 4, 9.5 V, gain with either voltage at 0.5/1/2/30.5/1000/1001/nan, all three, one, none — "
+               "through the constructor and a YAML document, accepted objects checked for bias = reset - common, inputs stored, "
+               "charge-to-volt usable (attribute setters observed and counted); mode: every constructor parameter of Calibration, Algorithm, Exposure, Observation and Readout (read off the source with "
                "its declared type) at boundary values of its guards / documented range and at the falsy-but-legal values (0, 0.0, "
                "False, [], first enumeration member, ''), through the Python constructor (twice), a YAML document (loaded twice) "
                "and the attribute setter, read back type-exactly; ctx: every validated field at in-range / boundary / out-of-range / nan values with the OTHER optional entries of its "
@@ -1338,6 +1460,9 @@ def body(ck: common.Check):
         "numpy integer scalars (not instances of `int`) are not generated as field values",
         "stored value compared through to_dict() (Environment stores float(temperature)); a 0 thickness/pixel size is stored "
         "but its getter reports 'not specified' — observed, not judged here",
+        "APD voltages changed through the attribute setters / a sweep are not range-checked by the code (a bias < 1 V is accepted "
+        "and only fails when charge_to_volt_conversion is read); the project's own tests assign common_voltage = 1000 through the "
+        "setter and expect success, so this is recorded in the distribution (apd:setter_*), not judged",
         "range / readout-time expressions: the denotation is Python's own evaluation of the expression with numpy (not modelled in Lean)",
     ]
     ck.trusted_base.append("C12: PyYAML SafeLoader maps YAML scalars to the Python ints/floats/strings the harness dumped; "
@@ -1367,6 +1492,9 @@ def replay(rp):
         elif st == "ctx":
             impl = run_ctx_impl(case)
             why = ctx_predicate(case, impl)
+        elif st == "apd":
+            impl = run_apd_impl(case)
+            why = apd_predicate(case, impl)
         elif st == "mode":
             import numpy as np
 
